@@ -201,6 +201,40 @@ func stressAdapterLeaks(seed int64, scale int) int {
 		}
 		v.count(fmt.Sprintf("http/%s/stack%d", mode, i%5))
 	}
+	longLived := customCtx{make(chan struct{})}
+	defer close(longLived.done)
+	// the caller gives up while an attempt is in flight (or before the returned body is closed), under an executor bound to a
+	// long-lived context of a non-standard type: whatever the merger registered on that context must be detached again
+	for i := 0; i < runs/2; i++ {
+		ex := failsafe.NewExecutor[*http.Response](failsafehttp.RetryPolicyBuilder().WithMaxRetries(1).Build()).WithContext(longLived)
+		cctx, ccancel := context.WithCancel(callerCtx)
+		req, _ := http.NewRequestWithContext(cctx, "POST", srv.URL+"/?mode="+pick(rng, "ok", "slow", "slow"), strings.NewReader("request-body"))
+		if i%2 == 0 {
+			go func() { time.Sleep(time.Duration(1+rng.Intn(3)) * time.Millisecond); ccancel() }()
+		}
+		resp, err := (&http.Client{Transport: failsafehttp.NewRoundTripperWithExecutor(ct, ex)}).Do(req)
+		if i%2 == 1 {
+			ccancel() // cancelled after the call returned, before the body is closed
+		}
+		if err == nil && resp != nil && resp.Body != nil {
+			io.Copy(io.Discard, resp.Body)
+			resp.Body.Close()
+		}
+		ccancel()
+		v.count("http/caller-gives-up")
+	}
+	for i := 0; i < runs/2; i++ {
+		ex := failsafe.NewExecutor[any]().WithContext(longLived)
+		cctx, ccancel := context.WithCancel(callerCtx)
+		failsafegrpc.NewUnaryClientInterceptorWithExecutor[any](ex)(cctx, "/s/m", 1, new(int), nil,
+			func(ctx context.Context, method string, req, reply any, cc *grpc.ClientConn, opts ...grpc.CallOption) error {
+				ccancel() // the caller's context ends while the call is in flight
+				<-ctx.Done()
+				return ctx.Err()
+			})
+		ccancel()
+		v.count("grpc/caller-gives-up")
+	}
 	// gRPC interceptors
 	for i := 0; i < runs; i++ {
 		var ps []failsafe.Policy[any]
@@ -292,6 +326,21 @@ func stressAdapterLeaks(seed int64, scale int) int {
 	execCancel()
 	return v.report("adapterleaks", 2*runs)
 }
+
+// customCtx is a context of a type the standard library does not know: propagation to or from it needs a goroutine.
+type customCtx struct{ done chan struct{} }
+
+func (customCtx) Deadline() (time.Time, bool) { return time.Time{}, false }
+func (c customCtx) Done() <-chan struct{}     { return c.done }
+func (c customCtx) Err() error {
+	select {
+	case <-c.done:
+		return context.Canceled
+	default:
+		return nil
+	}
+}
+func (customCtx) Value(any) any { return nil }
 
 func firstLines(s string, n int) string {
 	ls := strings.Split(s, "\n")
